@@ -269,6 +269,17 @@ func (v JV) json(b *strings.Builder) {
 		case v.E > 0 && v.E <= 30:
 			b.WriteString(v.M.String())
 			b.WriteString(strings.Repeat("0", int(v.E)))
+		case v.E < 0 && v.E >= -30:
+			digits := new(big.Int).Abs(v.M).String()
+			for int64(len(digits)) <= -v.E {
+				digits = "0" + digits
+			}
+			if v.M.Sign() < 0 {
+				b.WriteByte('-')
+			}
+			b.WriteString(digits[:int64(len(digits))+v.E])
+			b.WriteByte('.')
+			b.WriteString(digits[int64(len(digits))+v.E:])
 		default:
 			fmt.Fprintf(b, "%se%d", v.M.String(), v.E)
 		}
@@ -297,4 +308,63 @@ func (v JV) json(b *strings.Builder) {
 		}
 		b.WriteByte('}')
 	}
+}
+
+// DecodeJV parses the transport encoding produced by Enc.
+func DecodeJV(s string) JV {
+	pos := 0
+	var value func() JV
+	until := func(c byte) string {
+		st := pos
+		for pos < len(s) && s[pos] != c {
+			pos++
+		}
+		r := s[st:pos]
+		pos++
+		return r
+	}
+	unhex := func(h string) string {
+		b, err := hex.DecodeString(h)
+		if err != nil {
+			panic("bad transport json")
+		}
+		return string(b)
+	}
+	value = func() JV {
+		c := s[pos]
+		pos++
+		switch c {
+		case 'n':
+			return JNull()
+		case 't':
+			return JBool(true)
+		case 'f':
+			return JBool(false)
+		case '#':
+			body := until(';')
+			i := strings.IndexByte(body, 'e')
+			m, _ := new(big.Int).SetString(body[:i], 10)
+			e, _ := strconv.ParseInt(body[i+1:], 10, 64)
+			return JNum(m, e)
+		case 's':
+			return JStr(unhex(until(';')))
+		case '[':
+			a := []JV{}
+			for s[pos] != ']' {
+				a = append(a, value())
+			}
+			pos++
+			return JArr(a)
+		case '{':
+			o := []JKV{}
+			for s[pos] != '}' {
+				k := unhex(until(':'))
+				o = append(o, JKV{k, value()})
+			}
+			pos++
+			return JObj(o)
+		}
+		panic("bad transport json")
+	}
+	return value()
 }
